@@ -1284,8 +1284,14 @@ class MultiAgentRLAlgorithm(EvolvableAlgorithm, ABC):
         :return: Preprocessed observations
         :rtype: torch.Tensor[float] or dict[str, torch.Tensor[float]] or Tuple[torch.Tensor[float], ...]
         """
+        # NOTE: Iterate in the order of the agent IDs since callers pair the values of the
+        # returned dictionary with the agents' networks by position
         preprocessed = {}
-        for agent_id, obs in observation.items():
+        for agent_id in self.agent_ids:
+            if agent_id not in observation.keys():
+                continue
+
+            obs = observation[agent_id]
             preprocessed[agent_id] = preprocess_observation(
                 observation=obs,
                 observation_space=self.observation_space.get(agent_id),
